@@ -1,7 +1,7 @@
 (* Entry points [sx -> sx] for the schema pipeline: decode a case, run the model, encode what the
    harness observes of the Go run. *)
 From Coq Require Import List ZArith Bool.
-From Verif Require Import Base.Sx Base.GoVal Base.F64 Schema.Ast Schema.Pipeline.
+From Verif Require Import Base.Sx Base.GoVal Base.F64 Schema.Ast Schema.Pipeline Schema.Draft4 Schema.Classes.
 Import ListNotations.
 Open Scope Z_scope.
 
@@ -56,14 +56,24 @@ Definition of_outcome {T} (f : T -> sx) (o : outcome T) : sx :=
   | OutOfFuel => L [A 2]
   end.
 
-(* case: (oracles options defs schema rootpath data fuel) *)
+Definition of_optbool (b : option bool) : sx :=
+  A (match b with None => -1 | Some false => 0 | Some true => 1 end).
+
+(* case: (oracles options defs schema rootpath data fuel dectable)
+   result: (L1 outcome, draft-4 verdict in exact decimal arithmetic, draft-4 verdict with binary64 operations,
+            finding / unsupported classes the pair can trigger) *)
 Definition run_schema (s : sx) : sx :=
   match s with
-  | L [orc; opts; dfs; sch; A root; data; A fuel] =>
-      match get_oracles orc, get_options opts, get_env dfs, get_schema sch, get_goval data with
-      | Some orc, Some opts, Some dfs, Some sch, Some data =>
-          of_outcome of_res (sv_validate orc flocq_ops opts dfs (Z.to_nat fuel) sch [SRoot root] [SRoot root] data)
-      | _, _, _, _, _ => sx_err
+  | L [orc; opts; dfs; sch; A root; data; A fuel; dect] =>
+      match get_oracles orc, get_options opts, get_env dfs, get_schema sch, get_goval data,
+            getList (fun e => match e with L [A b; A m; A e10] => Some (b, (m, e10)) | _ => None end) dect with
+      | Some orc, Some opts, Some dfs, Some sch, Some data, Some dect =>
+          let fuel := Z.to_nat fuel in
+          L [ of_outcome of_res (sv_validate orc flocq_ops opts dfs fuel sch [SRoot root] [SRoot root] data);
+              of_optbool (d4 orc (exact_ops dect) dfs fuel sch data);
+              of_optbool (d4 orc flocq_ops dfs fuel sch data);
+              ofZs (dedupZ (visit orc dfs fuel sch data)) ]
+      | _, _, _, _, _, _ => sx_err
       end
   | _ => sx_err
   end.
